@@ -221,7 +221,8 @@ Proof.
   assert (Hne : fst v - fst u <> 0) by (unfold side, strictly_out in X; destruct ge; lra).
   split; auto. exists ((a - fst u) / (fst v - fst u)). split; [|split; auto].
   - apply frac01. unfold side, strictly_out in X; destruct ge; lra.
-  - unfold cut, mix; simpl. apply pair_eq; [field; auto | reflexivity].
+  - unfold cut, mix; simpl. apply pair_eq; [field; auto|].
+    unfold Reqb. destruct (Req_EM_T (snd u) (snd v)) as [E | N]; [rewrite <- E; ring | reflexivity].
 Qed.
 
 Lemma cut_fst a (u v : P2) : fst (cut O a u v) = a.
@@ -290,8 +291,8 @@ Lemma cut_cross ge a (u v x : P2) :
   xorb (inside O ge a u) (inside O ge a v) = true -> fst x = a ->
   (fst v - fst u) * (snd x - snd (cut O a u v)) = cross u v x.
 Proof.
-  intros X Hx. destruct (cut_is_mix ge a u v X) as (Hne & _).
-  unfold cross, cut; simpl. rewrite Hx. field. auto.
+  intros X Hx. destruct (cut_is_mix ge a u v X) as (Hne & s & _ & Es & Ec).
+  rewrite Ec. unfold cross, mix; simpl. rewrite Hx, Es. field. auto.
 Qed.
 
 Lemma forallb_false_ex {A} (f : A -> bool) l : forallb f l = false -> exists x, In x l /\ f x = false.
